@@ -979,8 +979,9 @@ class Printer:
                     if e is None:
                         raise Unsupported(f'default member initialiser of {any_["name"]} is not in the dump')
                 self.hoisted = []
-                # a reference member (`const T& m;` modelled as a pointer field) is bound, not copied: take the address
-                is_ref_field = any_.get('type', {}).get('qualType', '').rstrip().endswith('&')
+                # opt-in (Fn(..., ref_member_pointers=True)): a reference member (`const T& m;`) modelled as a pointer field is
+                # bound, not copied: the initialiser is the address of the object (default: the member is a copy of the object)
+                is_ref_field = getattr(self, 'ref_member_pointers', False) and any_.get('type', {}).get('qualType', '').rstrip().endswith('&')
                 ie = self.addr(e) if is_ref_field else self.expr(e)
                 pre += ''.join(f'  {h}\n' for h in self.hoisted)
                 self.hoisted = None
